@@ -181,6 +181,29 @@ def oracle(ctx):
     ctx.cov['planted_histogram'] = {'%s reached=%s' % k: v for k, v in hist.items()}
     ctx.counters['nontrivial'] = nt
     ctx.sample({'template': ps[0][0]['src'], 'vars': ps[0][0]['vars'], 'invalid': ps[0][1], 'reached': ps[0][3]})
+    # the deferred error is the error strict mode reports - also for expressions whose source text is not what is compiled
+    # (character entities, an escaped pipe, a doubled semicolon, a line break): same class, message, token text, position
+    from chameleon import PageTemplate
+    SPELT = ['<p>${x &lt;&lt;}</p>', '<p tal:content="x &amp;&amp; y">t</p>', '<p title="${a &gt;}">t</p>', '<p tal:content="a \\| b +">t</p>',
+             '<p tal:define="v \';;\' +">t</p>', '<p tal:attributes="title \'a;;b\' +; id \'i\'">t</p>', '<p>${1 +\n  }</p>',
+             '<div>\n<p tal:content="x &lt;\n  ">t</p></div>', '<p>${\'&eacute;\' +}</p>', '<p tal:condition="x &gt;= ">t</p>']
+
+    def err_of(f):
+        try:
+            f()
+        except Exception as e:
+            tok = getattr(e, 'token', None)
+            return (type(e).__name__, str(e.args[0]) if e.args else None, str(tok), getattr(tok, 'pos', None),
+                    tuple(tok.location) if hasattr(tok, 'location') else None)
+        return None
+    for src in SPELT:
+        for pre in ('', 'line one\n'):
+            ctx.count('evaluations')
+            es = err_of(lambda: PageTemplate(pre + src, strict=True))
+            el = err_of(lambda: PageTemplate(pre + src, strict=False)(x=1, y=2, a=3, b=4))
+            if es is None or es[0] != 'ExpressionError' or el != es:
+                ctx.violation('non-strict: the ExpressionError raised when the expression is reached is not the one strict mode reports at compile time',
+                              {'src': pre + src}, expected=es, actual=el)
     # D-19a
     file_pages(ctx)
     r = pipeline.run_impl({'src': '<p tal:content="a | bad +"/>', 'vars': [['a', 1]], 'cfg': {'strict': False}})
